@@ -35,7 +35,7 @@ Requirements for the change:
   particular multi-step sequence of operations, an unusual but legal input, a boundary value, a particular asset kind
   / ordering / configuration, or two cooperating sites that each look fine alone. All 318 existing tests must still
   pass with the change applied (run them).{(' Avoid these ideas, which have been used already: ' + avoid) if avoid else ''}
-* Do not edit or delete existing tests.{(' Put the change in this file (it is one of the files the property is anchored in; a second cooperating edit elsewhere is allowed if your idea needs it): ' + target) if target else ''}
+* Do not edit or delete existing tests. Never use `git stash` (the stash is shared between worktrees and other workers use the same repository); keep work in progress in files under your deliverables directory instead.{(' Put the change in this file (it is one of the files the property is anchored in; a second cooperating edit elsewhere is allowed if your idea needs it): ' + target) if target else ''}
 
 Deliverables, all written to {sd}/ :
   patch.diff  – `git diff` of the change alone (applies with `git apply` at the repository root on a clean tree)
